@@ -25,9 +25,9 @@ AFF = 'glue.core.coordinates.AffineCoordinates'
 
 def run(ctx):
     ix = ctx.index
-    rule_a(ctx, ix)
-    rule_b(ctx, ix)
-    rule_c(ctx, ix)
+    ctx.guard(rule_a, ctx, ix)
+    ctx.guard(rule_b, ctx, ix)
+    ctx.guard(rule_c, ctx, ix)
 
 
 def rule_a(ctx, ix):
